@@ -92,7 +92,7 @@ PROPS = {
         "quick": cfg(16, 25),
         "thorough": cfg(16, 400),
         "rule": "sets of 0-8 abstract filters of every kind (positive/negative/marker/event), enabled or not, negated or not, overlapping and duplicated, against streams of 0-500 messages; filter_as_streams (forwarded messages, passed+filtered) and the set matcher match_filters built through StreamContext::from (stream and query) incl. filtered_msgs after feeding process_stream_new_msgs in random batches; every 16th case additionally through ExportPlugin::from_json -> plugins_process_msgs -> exported file (one info message followed by exactly the kept messages in order, byte compared); oracle = spec_matches + keep rule. Non-trivial = >=1 enabled positive and >=1 enabled negative filter and both outcomes observed; distinct = multiset of (kind, enabled, negated).",
-        "floors": {"quick": {"evaluations": 20000, "distinct_nontrivial": 500, "agreement_checks": 500000, "export_plugin_files_compared": 1500}, "thorough": {"evaluations": 500000, "distinct_nontrivial": 1000}},
+        "floors": {"quick": {"evaluations": 10000, "distinct_nontrivial": 500, "agreement_checks": 300000, "export_plugin_files_compared": 800}, "thorough": {"evaluations": 500000, "distinct_nontrivial": 1000}},
         "assumptions": ["disabled filters reach match_filters only through the front doors that drop them (documented precondition of that function)"],
     },
     "C13": {
@@ -101,7 +101,7 @@ PROPS = {
         "quick": cfg(16, 45, timeout_factor=6),
         "thorough": cfg(16, 900, timeout_factor=3),
         "rule": "pipelines assembled from the public stage functions (producer -> parse_lifecycles_buffered_from_stream -> plugins_process_msgs -> optional buffer_sort_messages -> optional filter_as_streams -> consumer), every edge a sync_channel of capacity 0/1/2/3/16/1024 (uniform or mixed) written through sync_sender_send_delay_if_full; producer bursts/stalls, consumer stalls (us..400 ms), pause hooks before send and before lifecycle outflow; 1/5 with the consumer dropped after 0/1/mid/last messages. Reference = same stages with unbounded channels. Every 8th case runs the real `adlt convert -o` with ADLT_VERIF_CHAN_CAP in {0,1,2,7} against default capacities. Non-trivial = >=20 full-channel waits observed (hook census); distinct = (capacities, stages, pacing classes, drop, hook class, waits bucket).",
-        "floors": {"quick": {"evaluations": 300, "distinct_nontrivial": 50, "full_channel_waits": 20000, "early_consumer_drops": 30, "binary_convert_runs": 20}, "thorough": {"evaluations": 5000, "distinct_nontrivial": 300}},
+        "floors": {"quick": {"evaluations": 150, "distinct_nontrivial": 40, "full_channel_waits": 10000, "early_consumer_drops": 15, "binary_convert_runs": 10}, "thorough": {"evaluations": 5000, "distinct_nontrivial": 300}},
         "assumptions": ["termination after consumer drop is decided with a generous bound (120 s); the helper's 10 ms sleep per full channel bounds the throughput, so streams are <= 300 messages", "schedule independence is demanded for the unsorted pipeline only; the sorted pipeline must be a permutation with the same table"],
     },
     "C18": {
@@ -117,7 +117,7 @@ PROPS = {
         "quick": cfg(16, 30),
         "thorough": cfg(16, 400),
         "rule": "(a) byte strings of 0-600 bytes split into 1-8 volumes incl. empty first/middle/last volumes; 10-500 operations read(n) (n = 0, 1, small, > total) and seek(Start|Current|End) with targets in [0,len] incl. exactly at and around volume boundaries, compared step by step with std::io::Cursor over the concatenation (bytes, positions; a 0-byte read while the model has bytes left is a violation) and drained at the end; (b) every 40th case: zip archives written by a raw zip writer (stored entries; names: nested dirs, unicode, blanks/brackets, duplicates, empty members, directories, '../x', 'a/../../x', absolute incl. the absolute path of a pre-existing file, members larger than the 64 KiB copy buffer) extracted with extract_to_dir over a chain of random volumes and (every 80th case) with extract_archives from single or multi-volume files on disk with a pattern from a catalogue of (glob, Rust predicate) pairs; sandbox listing before/after. Non-trivial = chain history with >=1 read cut at a volume boundary and >=1 seek, archive checked without finding; distinct = (volumes, empties, size, crossings, empty first/last) resp. archive cases.",
-        "floors": {"quick": {"evaluations": 1000000, "distinct_nontrivial": 5000, "archives": 20000, "archives_with_hostile_names": 10000, "volume_boundary_crossings": 1000000, "empty_volumes_used": 500000, "multi_volume_archives_on_disk": 2000, "members_extracted_and_compared": 20000}, "thorough": {"evaluations": 10000000, "distinct_nontrivial": 10000}},
+        "floors": {"quick": {"evaluations": 500000, "distinct_nontrivial": 5000, "archives": 8000, "archives_with_hostile_names": 4000, "volume_boundary_crossings": 500000, "empty_volumes_used": 200000, "multi_volume_archives_on_disk": 800, "members_extracted_and_compared": 8000}, "thorough": {"evaluations": 10000000, "distinct_nontrivial": 10000}},
         "assumptions": ["only the default feature set (zip) is built; libarchive formats (7z, bz2) are outside the built configuration", "seek targets beyond the end or before 0 are excluded (std leaves the former implementation-defined and the chain clamps by design)", "duplicate member names accept either member's content"],
     },
     "C17": {
@@ -125,7 +125,7 @@ PROPS = {
         "quick": cfg(16, 40),
         "thorough": cfg(16, 600),
         "rule": "for every (file size class in {1, bs-1, bs, bs+1, 3bs, 3bs+1, random <= 200 KiB}) x (package size in {1, 2, 7, 1024, = file size}) a transfer is generated and EVERY single fault {none, drop k, duplicate k adjacent, duplicate k delayed, swap k/k+1, shrink k, grow k, drop announcement, drop end marker} is applied at every package position k (quick: up to 24 positions per sample incl. first/second/penultimate/last, thorough 64); the faulted transfer runs through FileTransferPlugin (via plugins_process_msgs) interleaved randomly with 0-3 other transfers (same serial on other ECU/lifecycle allowed, randomly faulted) and unrelated messages, both byte orders, names with directory parts ('../x', '/abs/y', 'a/b/c', '..', 'x/'), allowSave/keepFLDA/auto-save on and off, a pre-existing file colliding with the base name in 1/4 of the auto-save cases; observed: plugin state tree (complete/incomplete), bytes written by the save command (every index tried for incomplete transfers), auto-save directory listing and a sandbox file outside of it. distinct = (size class, package size class, fault kind, position).",
-        "floors": {"quick": {"evaluations": 100000, "distinct_nontrivial": 1500, "files_saved_and_compared": 50000, "files_auto_saved_and_compared": 30000, "fault_Drop": 10000, "fault_DupDelayed": 8000, "fault_Swap": 8000, "fault_DropFlst": 2000}, "thorough": {"evaluations": 1500000, "distinct_nontrivial": 3000}},
+        "floors": {"quick": {"evaluations": 50000, "distinct_nontrivial": 600, "files_saved_and_compared": 20000, "files_auto_saved_and_compared": 10000, "fault_Drop": 5000, "fault_DupDelayed": 4000, "fault_Swap": 4000, "fault_DropFlst": 800}, "thorough": {"evaluations": 1500000, "distinct_nontrivial": 3000}},
         "assumptions": ["'announcement dropped' is expected complete only through the documented recovery; both outcomes are accepted, but a reported completion must still save the identical content", "every generated transfer announces its true size (file size 0 'unknown' is not generated)"],
     },
     "C19": {
@@ -141,7 +141,7 @@ PROPS = {
         "quick": cfg(16, 45, timeout_factor=8),
         "thorough": cfg(16, 900, timeout_factor=3),
         "rule": "inputs: windows of the repository example files (dlt/asc/txt/log) and generated rich traces (verbose typed arguments, non-verbose FIBEX ids, control requests/responses incl. GET_LOG_INFO status 3-8 with descriptions, GET_SW_VERSION, unregister/connection/timezone, verbose control messages with short arguments, complete file transfers, SOME/IP- and CAN-like network traces, SYS/JOUR texts, Muniic 13-argument messages, all header shapes, reboots) under 1-4 mutations: bit flip, byte set, splice, truncation (also at structural boundaries), insertion, deletion and field-targeted rewrites (len, htyp, noar, msin, timestamp, storage seconds, first payload words, string/raw lengths, status bytes) with values 0/1/7/0xffff/0x7fffffff/0x80000000/u32::MAX/random; serial streams; grammar-based lines for ASC (CAN/CANFD/ErrorFrame/date/BusMapping with out-of-range numbers), logcat (monotonic + threadtime, 19-digit seconds, odd fractions) and generic log (non-ASCII / 70000-char / colliding tags, overflowing dates). Every input runs the WHOLE chain in an isolated worker process: reader for its extension -> header/payload text, argument iteration, to_write -> EacStats -> lifecycle detection -> listing -> time sort -> 9 filters covering every criterion -> plugins (FileTransfer allowSave on/off, NonVerbose, SomeIp, CAN, Muniic, Rewrite, Anonymize); panics are captured per stage, worker death (signal/abort) and stalls are detected by the supervisor and confirmed on the single input, the largest single allocation request is compared with 64 MiB + 1024*|input| unless it equals an input-independent baseline request. Non-trivial = >=1 message reached lifecycle detection and the plugins; distinct = (format, origin, first/last mutation operator, log2 messages).",
-        "floors": {"quick": {"evaluations": 100000, "distinct_nontrivial": 1000, "format_asc": 10000, "format_txt": 10000, "format_log": 5000, "format_dlt": 50000, "inputs_reaching_lifecycle_and_plugins": 80000}, "thorough": {"evaluations": 2000000, "distinct_nontrivial": 3000}},
+        "floors": {"quick": {"evaluations": 30000, "distinct_nontrivial": 1000, "format_asc": 4000, "format_txt": 4000, "format_log": 2500, "format_dlt": 15000, "inputs_reaching_lifecycle_and_plugins": 25000}, "thorough": {"evaluations": 2000000, "distinct_nontrivial": 3000}},
         "assumptions": ["builds use overflow-checks and debug-assertions, so an arithmetic overflow is observable as a panic", "a worker killed without a reproducible single-input failure is inconclusive, never a violation", "BLF input and the libarchive feature are outside the built configuration"],
     },
     "C15": {
@@ -150,7 +150,7 @@ PROPS = {
         "quick": cfg(16, 60, timeout_factor=6),
         "thorough": cfg(16, 900, timeout_factor=3),
         "rule": "websocket sessions against the real `adlt remote` binary (one server per worker, restarted every 8 sessions with a different pacing: parser pause 5-45 us per message or channel capacity 1/2/16 through hook H4): histories of 5-60 commands drawn from a grammar over open (small file, 150 000-message file = parsing in progress, zip archive)/close/pause/resume/stream/query/stop/stream_change_window/stream_binary_search/stream_search/plugin_cmd/fs with live, stale, foreign and malformed ids, missing arguments, broken JSON, wrong JSON types, empty and unknown commands. Client-side session model {file open, live stream ids, live query ids}; after each command exactly one reply frame (ok:/err: naming the command, or the unknown-command notice) within 60 s, replies agree with the model where it is determinate, a final 500 ms quiet period contains no reply, the process is alive and its stderr has no panic. Non-trivial = history with >=1 malformed and >=1 stateful command; distinct = de-duplicated command-kind sequence.",
-        "floors": {"quick": {"evaluations": 300, "distinct_nontrivial": 200, "commands": 10000, "closes_while_file_open": 400, "cmd_search_malformed": 200, "cmd_stream-bad_malformed": 200, "cmd_change_window": 300}, "thorough": {"evaluations": 4000, "distinct_nontrivial": 2000}},
+        "floors": {"quick": {"evaluations": 150, "distinct_nontrivial": 100, "commands": 5000, "closes_while_file_open": 200, "cmd_search_malformed": 100, "cmd_stream-bad_malformed": 100, "cmd_change_window": 150}, "thorough": {"evaluations": 4000, "distinct_nontrivial": 2000}},
         "assumptions": ["ids of queries disappear asynchronously when they are done: for query ids only 'a reply arrives' is checked, not found/not-found", "a reply missing after 60 s on a machine that is otherwise responsive is a violation; failure to start or connect to the server is inconclusive"],
     },
     "C16": {
@@ -159,7 +159,7 @@ PROPS = {
         "quick": cfg(16, 75, timeout_factor=6),
         "thorough": cfg(16, 900, timeout_factor=3),
         "rule": "first third of the budget, library level: StreamContext built from JSON (stream/query, 0-3 enabled filters of every kind, windows) driven exactly as the server loop drives process_stream_new_msgs, with arrival batches {0, 1, chunk-1, chunk, chunk+1, random} and chunk limits {1,2,7,63,64,65,1000,3M}; after EVERY step filtered_msgs must equal the specification's matches below all_msgs_last_processed_len (queries truncated to window end). Rest of the budget, binary level: sessions against `adlt remote` (parser pacing / small channels through hook H4) on generated logs of 37/700/20000 verbose messages: stream and query windows (empty, beyond the end, whole, inside), streams created before and after parsing finished, window changes (new id), search paging with page sizes 1-50 (or 1/2..1/10 of the stream) from arbitrary start positions until next_search_idx is absent, index lookups and (on a 500-message single-lifecycle log) time lookups; delivered DltMsgs are compared field by field with the file (index, reception time, timestamp, ecu/apid/ctid, mcnt, htyp, type, noar, text) and must not precede the ok: reply announcing their stream id. Non-trivial = library history with active filters and more messages than the chunk limit / complete binary session; distinct = (kind, chunk, filters, size, window class) resp. session shapes.",
-        "floors": {"quick": {"evaluations": 20000, "distinct_nontrivial": 500, "bin_sessions": 150, "windows_checked": 200, "window_changes_checked": 100, "searches_checked": 60, "lookups_checked": 80, "messages_compared_field_by_field": 5000}, "thorough": {"evaluations": 200000, "distinct_nontrivial": 1000, "bin_sessions": 2000}},
+        "floors": {"quick": {"evaluations": 20000, "distinct_nontrivial": 300, "bin_sessions": 50, "windows_checked": 100, "window_changes_checked": 60, "searches_checked": 40, "lookups_checked": 50, "messages_compared_field_by_field": 2000}, "thorough": {"evaluations": 200000, "distinct_nontrivial": 1000, "bin_sessions": 2000}},
         "assumptions": ["queries are issued after the file was parsed (a query issued while arrival stalls is ended by the server on its first idle poll: documented design, not part of the statement)", "time lookups are checked on the monotonic log only (one ECU, one lifecycle, calculated time strictly increasing), index lookups on all logs", "a window wait that times out while the server is still parsing (slow pacing) is inconclusive"],
     },
     "C14": {
@@ -168,7 +168,7 @@ PROPS = {
         "quick": cfg(16, 45, timeout_factor=6),
         "thorough": cfg(16, 600, timeout_factor=3),
         "rule": "1-4 generated input files (lifecycle scenarios incl. reboots/merges, same or different ECU populations, marker-free garbage between messages, globally unique reception times so every message is identifiable in the -a output) are converted with the real binary: a reference invocation `adlt convert -a files` fixes the index -> message mapping and is validated against the generated truth (every message once, per-file order kept, consecutive indices from 0, sorted by reception time when the ECU sets differ); lifecycle ids come from the library detector on the same sequence (ids normalised to a fresh process). Then 3 option combinations per file set from {-b, -e, --lcs, --eac (1-3 ECU:APID:CTID expressions, literal or regex), -f (DLF or dlt-convert format), --sort, -a/-x/-s/none, -o, permuted file arguments}: the emitted index list must equal window AND lifecycle AND filter selection of the specification (a permutation for --sort), the -o file must decode with the reference decoder to exactly those messages in normal form, and without style the number of listed lifecycles must equal the detector's. Non-trivial = >=2 selection options; distinct = option sets and option pairs (pairwise coverage).",
-        "floors": {"quick": {"evaluations": 1000, "distinct_nontrivial": 150, "invocations": 4000, "output_files_decoded": 1500, "lifecycle_listings_compared": 50}, "thorough": {"evaluations": 15000, "distinct_nontrivial": 250}},
+        "floors": {"quick": {"evaluations": 300, "distinct_nontrivial": 80, "invocations": 1200, "output_files_decoded": 500, "lifecycle_listings_compared": 15}, "thorough": {"evaluations": 15000, "distinct_nontrivial": 250}},
         "assumptions": ["ties between different files at equal reception time are not generated (all reception times are unique)", "payload text criteria are skipped when the input contains non-verbose messages (their text is not known by construction)", "TZ=UTC"],
     },
 }
